@@ -3278,6 +3278,28 @@ func (r *Resolver) verifyDNSSEC(ctx context.Context, signer, signed string, resp
 		return false, nil
 	}
 
+	if msg == resp {
+		// This is the signer's own DNSKEY response. VerifyDS only showed
+		// that the DS vouches for some key in it; the RRset is authentic
+		// only if a key the DS authenticates signed it (RFC 4035 §5.2).
+		// Checking it against every key it carries would let an on-path
+		// attacker append a key, sign the set with it and own the zone.
+		anchored, aerr := dnssec.DSAuthenticatedKeysWithWork(keys, parentdsRR, r.dnssecWork(ctx))
+		if aerr != nil {
+			return false, aerr
+		}
+		keySet := &dns.Msg{Question: resp.Question}
+		for _, rr := range resp.Answer {
+			sig, isSig := rr.(*dns.RRSIG)
+			if rr.Header().Rrtype == dns.TypeDNSKEY || (isSig && sig.TypeCovered == dns.TypeDNSKEY) {
+				keySet.Answer = append(keySet.Answer, rr)
+			}
+		}
+		if ok, err = dnssec.VerifyRRSIGWithWork(signer, anchored, keySet, r.dnssecWork(ctx)); err != nil || !ok {
+			return ok, err
+		}
+	}
+
 	if ok, err = dnssec.VerifyRRSIGWithWork(signer, keys, resp, r.dnssecWork(ctx)); err != nil {
 		return
 	}
